@@ -1,19 +1,320 @@
-import RtenVerif.Model.Planner
+import RtenVerif.Lemmas.PlannerFuel
+import RtenVerif.Lemmas.PlannerSort
+import RtenVerif.Lemmas.PlannerErr
 
 /-!
-# C03 — Execution plans are valid, complete and minimal (starter)
+# C03 — Execution plans are valid, complete and minimal
+
+Property theorems over `RtenVerif.Model.Planner` (model of `src/graph/planner.rs`,
+`Graph::execution_plan`) and the graph IR `RtenVerif.Model.Graph`.
+
+*For any graph and any set of distinct input and output nodes, planning either reports
+an error (cycle, missing input, duplicate or non-value node) or returns an operator
+sequence in which every operator appears once, runs only after all values it depends on
+(including subgraph captures) are available, every requested output is produced, and
+every operator is needed by some requested output.  Planning always terminates.*
+
+All theorems hold for **every** graph of the IR: cyclic ones, operators with repeated /
+omitted inputs, several outputs, captures, values with more than one producer, values
+that are both supplied and produced, ids that are not in the graph.
+
+* `c03_terminates`      (T1)  neither recursion/loop budget is ever exhausted.
+* `c03_error_classes`   (T2a) which errors can come out, and the exact argument check.
+* `c03_dfs_error_witness` (T2b) every traversal error has a real cause in the graph.
+* `c03_plan_ok`         (T3)  the returned plan is duplicate-free, dependency-closed,
+                              complete and minimal (`PlanOK`).
+* `c03_sort_perm`       (T4)  the returned plan is a permutation of the depth-first plan.
+* `c03_sort_orig_*`           the same statements are *false* for `sort_plan` as it was
+                              before commit "fix: planner: never schedule an operator
+                              twice in sort_plan" (`dedup = false`): concrete witnesses.
 -/
 namespace RtenVerif.Planner
 open RtenVerif.Graph
 
-/-- Witness graph D: value 0 is supplied *and* produced by the planned two-output operator 4. -/
+/-! ## T1 — termination -/
+
+/-- The frontier loop of `sort_plan`, run on the plan produced by the depth-first phase
+with budget `plan.length`, finishes. -/
+theorem sort_terminates {g : Graph} {ins outs : List Nat} {opts : PlanOptions} {st : St}
+    (hdfs : dfsPlan g ins outs opts = .ok st) (ham : opts.allowMissing = false) :
+    ∃ out, sortPlanFuel g true st.plan.length st.plan
+      (resolvedNew g ins opts.capturesAvailable) = some out := by
+  obtain ⟨hinv, _⟩ := dfsPlan_spec hdfs
+  rw [ham] at hinv
+  obtain ⟨out, h, _⟩ := sortPlan_spec hinv
+  exact ⟨out, h⟩
+
+/-- **C03.T1** Planning always terminates: the model's recursion budgets
+(`g.nodes.length` nested `visit` calls, `plan.length` iterations of the frontier loop)
+are never exhausted — for every graph (cyclic or not), request and option set.  Hence the
+fuelled model coincides with the unbounded recursion/loop of the code, which therefore
+terminates with recursion depth ≤ number of nodes and ≤ `plan.length` loop iterations. -/
+theorem c03_terminates (g : Graph) (ins outs : List Nat) (opts : PlanOptions) :
+    createPlan g ins outs opts ≠ .error .outOfFuel := by
+  unfold createPlan createPlanWith
+  split
+  · simp
+  · split
+    · simp
+    · split
+      · simp
+      · split
+        · simp
+        · split
+          · rename_i e hd
+            intro h
+            injection h with h
+            subst h
+            exact dfsPlan_ne_outOfFuel g ins outs opts hd
+          · rename_i st hd
+            split
+            · simp
+            · rename_i hcond
+              have ham : opts.allowMissing = false := by
+                cases h : opts.allowMissing with
+                | false => rfl
+                | true => simp [h] at hcond
+              obtain ⟨out, hout⟩ := sort_terminates hd ham
+              simp only [Option.getD_none, hout]
+              simp
+
+/-! ## T2 — errors -/
+
+/-- The request is well-formed: distinct ids that are value or constant nodes. -/
+def ArgsOK (g : Graph) (ins outs : List Nat) : Prop :=
+  outs.Nodup ∧ (∀ o ∈ outs, isValueOrConstant g o = true) ∧
+    ins.Nodup ∧ (∀ i ∈ ins, isValueOrConstant g i = true)
+
+theorem firstDup_isSome_iff (xs : List Nat) : (firstDup xs).isSome = true ↔ ¬xs.Nodup := by
+  rw [← firstDup_none_iff]
+  cases firstDup xs <;> simp
+
+theorem firstDup_isSome_false {xs : List Nat} (h : xs.Nodup) : (firstDup xs).isSome = false := by
+  rw [(firstDup_none_iff xs).mpr h]; rfl
+
+theorem all_false_of_not {g : Graph} {xs : List Nat}
+    (h : ¬(∀ o ∈ xs, isValueOrConstant g o = true)) : xs.all (isValueOrConstant g) = false := by
+  cases hc : xs.all (isValueOrConstant g) with
+  | false => rfl
+  | true => exact absurd (List.all_eq_true.mp hc) h
+
+/-- On a well-formed request `create_plan` is the traversal followed by the sort. -/
+theorem createPlan_of_argsOK {g : Graph} {ins outs : List Nat} (opts : PlanOptions)
+    (h : ArgsOK g ins outs) :
+    createPlan g ins outs opts =
+      match dfsPlan g ins outs opts with
+      | .error e => .error e
+      | .ok st =>
+        if opts.allowMissing || st.plan.isEmpty then .ok (st.plan.map (fun e => e.1))
+        else
+          match sortPlanFuel g true st.plan.length st.plan
+              (resolvedNew g ins opts.capturesAvailable) with
+          | some p => .ok p
+          | none => .error .outOfFuel := by
+  obtain ⟨h1, h2, h3, h4⟩ := h
+  simp only [createPlan, createPlanWith, firstDup_isSome_false h1, firstDup_isSome_false h3,
+    List.all_eq_true.mpr h2, List.all_eq_true.mpr h4, Bool.false_eq_true, if_false, Bool.not_true,
+    Option.getD_none]
+  cases dfsPlan g ins outs opts with
+  | error e => rfl
+  | ok st =>
+    dsimp only
+    split
+    · rfl
+    · cases sortPlanFuel g true st.plan.length st.plan
+        (resolvedNew g ins opts.capturesAvailable) <;> rfl
+
+/-- **C03.T2a** `create_plan` rejects exactly the malformed requests with an argument
+error, checked in the order outputs-unique, outputs-kind, inputs-unique, inputs-kind. -/
+theorem c03_argument_check (g : Graph) (ins outs : List Nat) (opts : PlanOptions) :
+    (¬outs.Nodup → createPlan g ins outs opts = .error .dupOutput) ∧
+    (outs.Nodup → ¬(∀ o ∈ outs, isValueOrConstant g o = true) →
+        createPlan g ins outs opts = .error .badOutput) ∧
+    (outs.Nodup → (∀ o ∈ outs, isValueOrConstant g o = true) → ¬ins.Nodup →
+        createPlan g ins outs opts = .error .dupInput) ∧
+    (outs.Nodup → (∀ o ∈ outs, isValueOrConstant g o = true) → ins.Nodup →
+        ¬(∀ i ∈ ins, isValueOrConstant g i = true) →
+        createPlan g ins outs opts = .error .badInput) := by
+  refine ⟨?_, ?_, ?_, ?_⟩
+  · intro h
+    simp [createPlan, createPlanWith, (firstDup_isSome_iff outs).mpr h]
+  · intro h1 h2
+    simp [createPlan, createPlanWith, firstDup_isSome_false h1, all_false_of_not h2]
+  · intro h1 h2 h3
+    simp [createPlan, createPlanWith, firstDup_isSome_false h1, List.all_eq_true.mpr h2,
+      (firstDup_isSome_iff ins).mpr h3]
+  · intro h1 h2 h3 h4
+    simp [createPlan, createPlanWith, firstDup_isSome_false h1, List.all_eq_true.mpr h2,
+      firstDup_isSome_false h3, all_false_of_not h4]
+
+/-- **C03.T2b** On a well-formed request every error has a genuine cause in the graph
+(`ErrCause`): `cycle` — a needed operator lies on a dependency cycle through values that
+were not supplied; `missingInput` — a needed operator depends on a value that is neither
+available nor produced by any operator; `noSource` — the same for a requested output.
+No other error is possible. -/
+theorem c03_error_cause {g : Graph} {ins outs : List Nat} {opts : PlanOptions} {e : PlanError}
+    (hargs : ArgsOK g ins outs) (h : createPlan g ins outs opts = .error e) :
+    ErrCause g opts (resolvedNew g ins opts.capturesAvailable) outs e := by
+  have hne := c03_terminates g ins outs opts
+  rw [createPlan_of_argsOK opts hargs] at h hne
+  cases hd : dfsPlan g ins outs opts with
+  | error e' =>
+    simp only [hd] at h hne
+    injection h with h; subst h
+    rcases dfsPlan_err hd with h' | h'
+    · subst h'; exact absurd rfl hne
+    · exact h'
+  | ok st =>
+    simp only [hd] at h hne
+    split at h
+    · cases h
+    · split at h
+      · cases h
+      · injection h with h; subst h
+        rename_i hcond _ hs
+        simp only [hcond, hs] at hne
+        exact absurd rfl hne
+
+/-- Non-vacuity of `ArgsOK`/`ErrCause`: a two-operator cycle. -/
+example : createPlan
+    { nodes := [.value, .value, .operator { inputs := [some 1], outputs := [some 0] },
+        .operator { inputs := [some 0], outputs := [some 1] }] } [] [0] {} = .error .cycle := by
+  decide
+
+/-! ## T3 — the returned plan is valid, complete and minimal -/
+
+theorem mem_availAfter_perm {g : Graph} {r0 a b : List Nat} (hp : a.Perm b) :
+    ∀ v, v ∈ availAfter g r0 a → v ∈ availAfter g r0 b := by
+  intro v hv
+  simp only [availAfter, List.mem_append, List.mem_flatMap] at hv ⊢
+  rcases hv with hv | ⟨i, hi, hv⟩
+  · exact Or.inl hv
+  · exact Or.inr ⟨i, hp.subset hi, hv⟩
+
+/-- The depth-first plan satisfies `PlanOK` (this is what `create_plan` returns with
+`allow_missing_inputs`, or when the plan is empty). -/
+theorem dfs_plan_ok {g : Graph} {ins outs : List Nat} {opts : PlanOptions} {st : St}
+    (hd : dfsPlan g ins outs opts = .ok st) :
+    PlanOK g opts.allowMissing (resolvedNew g ins opts.capturesAvailable) outs
+      (st.plan.map (fun e => e.1)) := by
+  obtain ⟨hinv, hav⟩ := dfsPlan_spec hd
+  refine ⟨hinv.nodup, validIds_of_validFrom hinv.valid hinv.ops, ?_, ?_⟩
+  · intro o ho
+    have := hav o ho
+    rw [hinv.res] at this
+    simpa [availAfter, flatMap_outsOf_map hinv.ops] using this
+  · intro i hi
+    obtain ⟨e, he, rfl⟩ := List.mem_map.mp hi
+    exact hinv.needed e he
+
+/-- **C03.T4** The plan `create_plan` returns is a permutation of the plan found by the
+depth-first traversal (identical to it with `allow_missing_inputs` or when empty). -/
+theorem c03_sort_perm {g : Graph} {ins outs plan : List Nat} {opts : PlanOptions}
+    (hargs : ArgsOK g ins outs) (h : createPlan g ins outs opts = .ok plan) :
+    ∃ st, dfsPlan g ins outs opts = .ok st ∧ plan.Perm (st.plan.map (fun e => e.1)) ∧
+      (opts.allowMissing = true → plan = st.plan.map (fun e => e.1)) := by
+  rw [createPlan_of_argsOK opts hargs] at h
+  cases hd : dfsPlan g ins outs opts with
+  | error e' => simp [hd] at h
+  | ok st =>
+    simp only [hd] at h
+    refine ⟨st, rfl, ?_⟩
+    split at h
+    · injection h with h; subst h
+      exact ⟨List.Perm.refl _, fun _ => rfl⟩
+    · rename_i hcond
+      have ham : opts.allowMissing = false := by
+        cases h' : opts.allowMissing with
+        | false => rfl
+        | true => simp [h'] at hcond
+      obtain ⟨hinv, _⟩ := dfsPlan_spec hd
+      rw [ham] at hinv
+      obtain ⟨out, hout, hperm, _⟩ := sortPlan_spec hinv
+      simp only [hout] at h
+      injection h with h; subst h
+      exact ⟨hperm, fun h' => by rw [ham] at h'; cases h'⟩
+
+/-- **C03.T3** Whenever planning succeeds on a well-formed request, the returned
+sequence (a) lists every operator once, (b) runs each operator only after all of its
+dependencies — inputs and subgraph captures — are available from the supplied inputs,
+constants, graph captures (if `captures_available`) and outputs of earlier entries,
+(c) makes every requested output available, and (d) contains only operators needed by a
+requested output.  With `allow_missing_inputs`, "available" also admits values that no
+operator produces. -/
+theorem c03_plan_ok {g : Graph} {ins outs plan : List Nat} {opts : PlanOptions}
+    (hargs : ArgsOK g ins outs) (h : createPlan g ins outs opts = .ok plan) :
+    PlanOK g opts.allowMissing (resolvedNew g ins opts.capturesAvailable) outs plan := by
+  rw [createPlan_of_argsOK opts hargs] at h
+  cases hd : dfsPlan g ins outs opts with
+  | error e' => simp [hd] at h
+  | ok st =>
+    simp only [hd] at h
+    have hdfs := dfs_plan_ok hd
+    split at h
+    · injection h with h; subst h
+      exact hdfs
+    · rename_i hcond
+      have ham : opts.allowMissing = false := by
+        cases h' : opts.allowMissing with
+        | false => rfl
+        | true => simp [h'] at hcond
+      obtain ⟨hinv, _⟩ := dfsPlan_spec hd
+      rw [ham] at hinv hdfs ⊢
+      obtain ⟨out, hout, hperm, hvalid⟩ := sortPlan_spec hinv
+      simp only [hout] at h
+      injection h with h; subst h
+      refine ⟨hperm.nodup_iff.mpr hdfs.nodup, hvalid, ?_, ?_⟩
+      · intro o ho
+        exact (hdfs.outputs o ho).mono (mem_availAfter_perm hperm.symm)
+      · intro i hi
+        exact hdfs.minimal i (hperm.subset hi)
+
+/-- Non-vacuity of T3/T4: a diamond with an in-place-capable branch; the sort moves the
+non-in-place operator 6 in front of the in-place-capable operator 5. -/
+def diamond : Graph :=
+  { nodes := [.value, .value, .value, .value,
+      .operator { inputs := [some 0], outputs := [some 1] },
+      .operator { inputs := [some 1], outputs := [some 2], inPlace := true },
+      .operator { inputs := [some 1], outputs := [some 3] },
+      .value,
+      .operator { inputs := [some 2, some 3], outputs := [some 7] }] }
+
+example : createPlan diamond [0] [7] {} = .ok [4, 6, 5, 8] := by decide
+example : (dfsPlan diamond [0] [7] {}).toOption.map (fun st => st.plan.map (fun e => e.1)) =
+    some [4, 5, 6, 8] := by decide
+example : ArgsOK diamond [0] [7] := by
+  refine ⟨by decide, by decide, by decide, by decide⟩
+
+/-! ## The pre-fix `sort_plan` (`dedup = false`) violates T3/T4/T1 -/
+
+/-- Witness D: value 0 is supplied *and* produced by the planned two-output operator 4. -/
 def witnessDup : Graph :=
   { nodes := [.value, .value, .value,
       .operator { inputs := [some 0], outputs := [some 1] },
       .operator { inputs := [], outputs := [some 0, some 2] }] }
 
-/-- Before the fix, `sort_plan` scheduled operator 3 twice. -/
+/-- Before the fix, `sort_plan` scheduled operator 3 twice (reproduced on the real code:
+`execution_plan` returned `[3, 4, 3]`), so "every operator appears once" / "permutation of
+the depth-first plan" were false. -/
 theorem c03_sort_orig_duplicates :
     createPlanWith witnessDup false (some 100) [0] [1, 2] {} = .ok [3, 4, 3] := by decide
+
+/-- The same request with the code as it stands. -/
+theorem c03_sort_fixed_witnessDup : createPlan witnessDup [0] [1, 2] {} = .ok [3, 4] := by decide
+
+/-- Witness C: operators 3 and 4 form a cycle that the supplied value 0 cuts. -/
+def witnessCyc : Graph :=
+  { nodes := [.value, .value, .value,
+      .operator { inputs := [some 2], outputs := [some 0, some 1] },
+      .operator { inputs := [some 0], outputs := [some 2] }] }
+
+/-- Before the fix the frontier loop re-scheduled operators 4 and 3 alternately: after 64
+iterations (for a two-operator plan) it is still running.  On the real code the call never
+returned and its plan vector grew without bound ("planning always terminates" was false). -/
+theorem c03_sort_orig_diverges :
+    createPlanWith witnessCyc false (some 64) [0] [1] {} = .error .outOfFuel := by decide
+
+/-- The same request with the code as it stands. -/
+theorem c03_sort_fixed_witnessCyc : createPlan witnessCyc [0] [1] {} = .ok [4, 3] := by decide
 
 end RtenVerif.Planner
